@@ -15,6 +15,8 @@ import (
 	"hash/fnv"
 	"net/http"
 	"net/http/httptest"
+	"os"
+	"path/filepath"
 	"reflect"
 	"runtime"
 	"strings"
@@ -28,7 +30,21 @@ import (
 	"pgregory.net/rapid"
 )
 
-var rec = ev.New("C13")
+var rec = newRec()
+
+// newRec: under the driver VERIF_KNOWN is set; for a manual `go test` / `go test -fuzz`
+// run from the package directory fall back to the repository's known_findings.json so
+// that recorded findings do not stop the search there either.
+func newRec() *ev.Rec {
+	if os.Getenv("VERIF_KNOWN") == "" {
+		if p, err := filepath.Abs("../../../known_findings.json"); err == nil {
+			if _, err := os.Stat(p); err == nil {
+				os.Setenv("VERIF_KNOWN", p)
+			}
+		}
+	}
+	return ev.New("C13")
+}
 
 func TestMain(m *testing.M) { ev.Main(m, rec) }
 
@@ -102,7 +118,8 @@ func translate(stream []byte, plan []int, eofWithData bool) translation {
 
 var textPieces = []string{
 	"Hello", " ", "world", ".", ",", "The answer is 42", "\n", "\r\n", "\r", "\t", "\n\n", "\r\n\r\n",
-	"é", "ü", "ß", "日本語", "한", "😀", "🦙", "𝄞", "👩‍👩‍👧", "é", " ", " ", "\u0000", " ", "﻿", "\u007f",
+	"\u00e9", "\u00fc", "\u00df", "\u65e5\u672c\u8a9e", "\ud55c", "\U0001F600", "\U0001F999", "\U0001D11E",
+	"\U0001F469\u200d\U0001F469\u200d\U0001F467", "e\u0301", "\u2028", "\u2029", "\u0000", "\u00a0", "\ufeff", "\u007f", "\u0085", "\ufffd",
 	"\"", "\\", "\\n", "\\u0041", "'", "</script>", "<b>", "&amp;", "data: ", "data:", "[DONE]", "event: message_stop",
 	"{\"a\":1}", "{", "}", "null", "  ", "x",
 }
